@@ -465,6 +465,30 @@ fn main() {
         }
     }
 
+    // f32 elements (seed C20-5: the mean of the sigma method summed in the element type): series whose running sum is NOT
+    // representable in f32 - 2^24 next to small integers - and NaN nulls; the model runs on the values widened to f64
+    {
+        let big = 16777216.0f32;
+        let crafted: Vec<Vec<f32>> = vec![
+            vec![big, 3.0, 3.0, 3.0, 3.0, -big], vec![3.0, big, 5.0, -big, 7.0, 1.0], vec![big, 1.0, 1.0, 1.0, f32::NAN, -big, 9.0],
+            vec![1.5, 2.5, -0.5, 4.0], vec![big, big, 1.0, 1.0, 1.0, 1.0, -big, -big, 2.0],
+        ];
+        for x32 in crafted.iter() {
+            let s = Series { xs: x32.iter().map(|x| if x.is_nan() { None } else { Some(*x as f64) }).collect(), tags: "style=f32_wide nulls=some".into() };
+            for (m, p) in [(2usize, None), (2, Some(1.0)), (2, Some(0.5)), (1, None), (0, Some(0.25))] {
+                let tags = format!("fn=winsorize method={} p={} ty=f32 be=vec len={} nvalid={} scope=in {}", MNAME[m],
+                    match p { None => "default".to_string(), Some(x) => format!("{}", x) }, x32.len(), s.nvalid().min(9), s.tags);
+                em.case("custom:wins", &tags, &format!("fn=winsorize ty=f32 be=vec method={} param={:?} xs={:?}", MNAME[m], p, x32),
+                    || format!("(run_wins_f {} {} {})", m, coq_opt(&p, |x| coq_f64(*x)), coq_series(&s, Ty::F)),
+                    || match imp::wins(x32, m, p) {
+                        Ok(Some((hint, out))) => { let mut c = vec![Cell::Int(hint as i128)]; c.extend(cells_f64(&out)); c.push(Cell::Sep); c.extend(cells_f64(&s.f())); c }
+                        Ok(None) => vec![Cell::Err],
+                        Err(k) => vec![Cell::Panic(k)],
+                    });
+            }
+        }
+    }
+
     // =========================== Spearman ================================================================
     {
         let alpha4 = [Some(-1.0), Some(2.0), Some(3.0), None];
